@@ -11,6 +11,7 @@ ENV  : byte-identical text across hash seeds / earlier translations / threads (h
 import hashlib
 import json
 import os
+import shutil
 import subprocess
 import sys
 import tempfile
@@ -121,11 +122,17 @@ def play(hist, reuse=True):
     objs = {}
     obs = []
     outfile = os.path.join(w.dir, f'out-{os.getpid()}.py')
+    priv = os.path.join(w.dir, f'priv-{os.getpid()}.xlsx') if any(st['call'] == 'path' and '@' in st.get('arg', '') for st in hist) else None
     for st in hist:
         call, arg = st['call'], st.get('arg', '')
         ev = {'call': call, 'arg': arg}
         if call == 'path':
-            ps.set_excel_file_path(w.files[arg])
+            if priv is not None and arg in ('w1', 'w2@1'):
+                # 'w2@1': the file at w1's path has been REPLACED by workbook w2 (same path string); 'w1': w1's own content is back
+                shutil.copyfile(w.files['w2' if arg == 'w2@1' else 'w1'], priv)
+                ps.set_excel_file_path(priv)
+            else:
+                ps.set_excel_file_path(w.files[arg])
         elif call == 'entry':
             if arg == 'whole':
                 ps.set_entrypoint_cell(None)
@@ -162,6 +169,8 @@ def play(hist, reuse=True):
 def expected(w, exp):
     if exp == ['nopath']:
         return 'lib:nopath'
+    exp = list(exp)
+    exp[0] = exp[0].split('@')[0]           # 'w2@1' = workbook w2 stored at w1's path: the text is that of w2
     return w.tbl[tuple(exp)]
 
 
@@ -227,6 +236,16 @@ def gen(run):
             seen.add(k)
             hists.append(rec['h'])
     run.exhaustive[f'call histories <= {maxlen}'] = True
+    # a workbook file that is replaced under the SAME path string and announced again: the next result is that of the new content
+    r2 = run.tlc('Gen_C09', ['SPECIFICATION GSpec', 'CONSTANTS Paths = {"w1", "w2@1"} Entries = {"whole", "eA"} NoPath = "nopath"', f'CONSTANT MaxLen = {maxlen + 1}',
+                             'PROPERTY OutIsCurrent', 'PROPERTY GetIdempotent', 'PROPERTY FileEqualsOut'], workers=2, timeout=900, tag='Gen_C09_replaced')
+    for rec in r2.records:
+        if any(st['call'] == 'path' and '@' in st['arg'] for st in rec['h']):
+            k = json.dumps(rec['h'], sort_keys=True)
+            if k not in seen:
+                seen.add(k)
+                hists.append(rec['h'])
+    run.exhaustive[f'call histories <= {maxlen + 1} over a path whose file is replaced'] = True
     jobs = []
     for h in hists:
         jobs.append((h, True))
